@@ -19,7 +19,7 @@ SEARCH_AOBJ = $(patsubst engines/%.cpp,$(B)/asan/%.o,$(SEARCH_SRC))
 .PHONY: all prod asan clean
 all: prod asan
 asan: $(B)/copymove_asan
-prod: $(B)/search $(B)/segmentation $(B)/dynamic $(B)/multidim $(B)/mapped $(B)/cabi
+prod: $(B)/search $(B)/segmentation $(B)/dynamic $(B)/multidim $(B)/mapped $(B)/cabi $(B)/reject
 
 $(STAMP):
 	@mkdir -p $(B) && touch $@
@@ -74,6 +74,9 @@ $(B)/copymove_asan: $(B)/asan/copymove.o
 	$(CXX) $(ASAN) $^ -o $@
 
 $(B)/copymove: $(B)/prod/copymove.o
+	$(CXX) $(PROD) $^ -o $@
+
+$(B)/reject: $(B)/prod/reject.o $(B)/prod/cpgm.o
 	$(CXX) $(PROD) $^ -o $@
 
 $(B)/search_asan: $(SEARCH_AOBJ)
